@@ -417,12 +417,13 @@ RepairStep(par, p, F, verif, buf, present, blk, lens) ==
                       IN (fc = 0 \/ RecoverOK(par, p, F, use, buf)) /\ ParAt(par, chk, p).k = "V" /\ ParAt(par, chk, p).w = b
         byhash == {S \in Combos(n, fc) : S \subseteq present}
         hashGood(S) == hashOK(Recovered(par, p, F, S, buf))
-    IN IF fc = 0 THEN [ok |-> TRUE, buf |-> buf]
+    IN IF fc = 0 THEN [ok |-> TRUE, buf |-> buf, how |-> "nothing"]
        ELSE IF ~hasHash /\ fc < n /\ \E S \in spare : spareOK(S)
-            THEN LET S == CHOOSE S \in spare : spareOK(S) IN [ok |-> TRUE, buf |-> Recovered(par, p, F, S \ {Max(S)}, buf)]
+            THEN LET S == CHOOSE S \in spare : spareOK(S) IN [ok |-> TRUE, buf |-> Recovered(par, p, F, S \ {Max(S)}, buf), how |-> "spare"]
        ELSE IF hasHash /\ fc <= n /\ \E S \in byhash : hashGood(S)
-            THEN LET S == CHOOSE S \in byhash : hashGood(S) IN [ok |-> TRUE, buf |-> Recovered(par, p, F, S, buf)]
-       ELSE [ok |-> FALSE, buf |-> buf]
+            THEN LET S == CHOOSE S \in byhash : hashGood(S) IN [ok |-> TRUE, buf |-> Recovered(par, p, F, S, buf), how |-> "hash"]
+       ELSE [ok |-> FALSE, buf |-> buf,
+             how |-> IF ~hasHash /\ fc >= n THEN "nostrategy" ELSE IF hasHash /\ fc > n THEN "toomany" ELSE "mismatch"]
 
 (* outcome of reading the file block b of disk d during check/fix:
    missing file / short file -> bad; in fix the file is (re)created with its recorded size first, so a
@@ -483,9 +484,22 @@ CheckStripe(C, fs, par, p, present0) ==
         pv == Eager([d \in D |-> res.buf[d]])
         perr == IF ok /\ used_parity /\ valid_parity
                 THEN {l \in present : ~(ParAt(par, l, p).k = "V" /\ ParAt(par, l, p).w = pv)} ELSE {}
+        \* which branches of the repair logic this stripe went through (coverage goals for generated histories)
+        path == IF bad = {} THEN {"clean"}
+                ELSE (IF fetched # {} THEN {"fetched"} ELSE {}) \cup
+                     (IF s1.ok THEN {"s1-" \o s1.how} \cup
+                                    (IF \E d \in ood1 : blk[d].h = "INVALID" THEN {"s1-chg-lost-hash"} ELSE {}) \cup
+                                    (IF \E d \in ood1 : blk[d].h = "ZERO" THEN {"s1-chg-maybe-old-zero"} ELSE {}) \cup
+                                    (IF \E d \in ood1 : IsUnique(blk[d].h) THEN {"s1-chg-maybe-old-data"} ELSE {}) \cup
+                                    (IF \E d \in bad \ ood1 : blk[d].st = "CHG" THEN {"s1-chg-accepted-new"} ELSE {})
+                      ELSE {"s1-fail-" \o s1.how} \cup
+                           (IF ~try2 THEN {"s2-skipped"}
+                            ELSE IF s2.ok THEN {"s2-" \o s2.how} \cup (IF zeroed \cap bad # {} THEN {"s2-zeroed-bad-chg"} ELSE {})
+                                                                  \cup (IF ood2 # {} THEN {"s2-old-state-not-written"} ELSE {})
+                            ELSE {"s2-fail-" \o s2.how}))
     IN [ok |-> ok, bad |-> bad, ood |-> IF ok THEN res.ood ELSE {}, buf |-> res.buf, perr |-> perr,
         lost |-> IF ok /\ used_parity /\ valid_parity THEN Levels \ present ELSE {}, rderr |-> present0 \ present,
-        pv |-> pv, blk |-> blk, lens |-> lens]
+        pv |-> pv, blk |-> blk, lens |-> lens, path |-> path]
 
 (***************************************************************************)
 (* Check / Fix over the whole array.  present = parity levels whose file   *)
@@ -495,7 +509,7 @@ CheckStripe(C, fs, par, p, present0) ==
 (***************************************************************************)
 (* stripes outside the -S/-B range are not processed at all *)
 NoStripe == [ok |-> TRUE, bad |-> {}, ood |-> {}, buf |-> ZeroVec, perr |-> {}, lost |-> {}, rderr |-> {}, pv |-> ZeroVec,
-             blk |-> <<>>, lens |-> <<>>]
+             blk |-> <<>>, lens |-> <<>>, path |-> {}]
 RangeOf(rg, bm) == LET lo == IF "bstart" \in DOMAIN rg THEN rg.bstart ELSE 0
                        hi == IF "bcount" \in DOMAIN rg /\ rg.bcount # 0 /\ lo + rg.bcount < bm THEN lo + rg.bcount ELSE bm
                    IN lo..(hi - 1)
